@@ -17,6 +17,10 @@ import (
 type c12Case struct {
 	Snapshot bool     `json:"snapshot"`
 	Moves    []string `json:"moves"` // next resp.cur resp.prev resp.garbage err.cur initerr rnext rerr unknown badmethod | INV RESTORE
+	// Warm: the sequence is played by the runtime of a second execution environment - a first runtime took an invocation
+	// and exited, the environment was reset - so the sequence starts with the invocation that starts that runtime (plain
+	// mode, no init/error: a failing re-initialisation answers differently from a first one, DESIGN section 8)
+	Warm bool `json:"warm,omitempty"`
 }
 
 // ---- reference automaton
@@ -252,6 +256,10 @@ func (c *c12Case) plan() *c12Plan {
 	rt = append(rt, Step{Op: "stall"})
 	sc.Actors["runtime"] = []Script{{Steps: rt}}
 	sc.Driver = drv
+	if c.Warm && !c.Snapshot {
+		sc.Actors["runtime"] = []Script{{Steps: []Step{{Op: "rt.next"}, {Op: "exit", Code: 1}}}, {Steps: rt}}
+		sc.Driver = append([]Step{{Op: "invoke", Tag: "pre", Payload: &kit.Blob{Len: 5, Seed: 55, Kind: "ascii"}}}, drv...)
+	}
 	return p
 }
 
@@ -265,6 +273,9 @@ func c12Check(c c12Case) (out kit.Outcome) {
 	tr := run.Trace
 	out.Artifacts = run.diag()
 	out.Sample = map[string]any{"snapshot": c.Snapshot, "moves": c.Moves}
+	if c.Warm && !c.Snapshot {
+		out.Label("second-environment")
+	}
 	if c.Snapshot {
 		out.Label("mode:snapshot")
 	} else {
@@ -396,10 +407,18 @@ func c12Gen(t *rapid.T) c12Case {
 	c := c12Case{Snapshot: rapid.Bool().Draw(t, "snapshot")}
 	all := []string{"next", "next", "next", "resp.cur", "resp.cur", "resp.prev", "resp.garbage", "err.cur", "initerr", "rnext", "rerr", "unknown", "badmethod", "INV", "INV", "INV", "RESTORE"}
 	m := &c12Model{snapshot: c.Snapshot, st: "started", inv: "none"}
+	if !c.Snapshot && rapid.IntRange(0, 2).Draw(t, "warm") == 0 {
+		c.Warm = true
+		c.Moves = []string{"INV"}
+		m.inv = "pending"
+	}
 	n := rapid.IntRange(1, 14).Draw(t, "n")
 	for i := 0; i < n; i++ {
 		var en []string
 		for _, mv := range all {
+			if c.Warm && mv == "initerr" {
+				continue
+			}
 			if c12Enabled(m, mv) {
 				en = append(en, mv)
 			}
@@ -430,6 +449,8 @@ func c12Fixed() []c12Case {
 	return []c12Case{
 		{Moves: []string{"resp.cur", "next", "INV", "next", "initerr", "resp.garbage", "resp.cur", "resp.cur", "err.cur", "next", "resp.prev", "INV", "err.cur", "next"}},
 		{Moves: []string{"INV", "rnext", "next", "resp.cur", "next"}},
+		{Warm: true, Moves: []string{"INV", "resp.cur", "next", "next", "resp.garbage", "resp.cur", "next", "INV", "err.cur", "next"}},
+		{Warm: true, Moves: []string{"INV", "next", "err.cur", "resp.cur", "INV", "next", "resp.prev", "resp.cur"}},
 		{Moves: []string{"initerr", "next", "initerr", "resp.cur", "unknown", "badmethod"}},
 		{Snapshot: true, Moves: []string{"rerr", "rnext", "initerr", "RESTORE", "resp.cur", "next", "INV", "resp.cur", "next"}},
 		{Snapshot: true, Moves: []string{"rnext", "RESTORE", "rerr", "next", "rnext"}},
